@@ -125,7 +125,11 @@ Init ==
         /\ vec \in {Rev(s) : s \in Sorted}
      \/ /\ kind = "match" /\ mode = 0 /\ key \in Keys /\ vec \in Arbitrary
      \/ /\ kind = "index" /\ mode = 0 /\ key = Blank
-        /\ vec \in [1..4 -> 0..4] /\ vec[1] \in 1..3 /\ vec[2] \in 1..3   \* <<R, C, r, c>>
+        /\ vec \in [1..4 -> 0..7] /\ vec[1] \in 1..6 /\ vec[2] \in 1..6   \* <<R, C, r, c>>
+     \* a table of R x C cells whose key line holds 2, 4, .., looked up by VLOOKUP / HLOOKUP
+     \/ /\ kind = "table" /\ mode \in {0, 1}
+        /\ vec \in [1..3 -> 0..7] /\ vec[1] \in 1..6 /\ vec[2] \in 1..6 /\ vec[3] \in 1..7  \* <<R, C, col>>
+        /\ key \in {IntV(k) : k \in 0..(2 * vec[1] + 1)}
      \/ /\ kind = "countif" /\ mode \in 1..6 /\ key \in {IntV(1), IntV(2), Txt(<<97>>), Txt(<<99, 42>>), Bool(TRUE)}
         /\ vec \in Arbitrary
 
@@ -139,9 +143,21 @@ Index(R, C, r, c) ==
   ELSE IF c = 0 THEN [k |-> "row", i |-> r]
   ELSE [k |-> "elem", i |-> r, j |-> c]
 
+\* the key line of a table with n entries, and the look-up of a key in it
+KeyLine(n) == [i \in 1..n |-> IntV(2 * i)]
+\* VLOOKUP(key, table, col, mode): INDEX of MATCH on the key line, #REF! past the table.
+\* (no match and a column past the table at once: which error is reported is not defined here)
+TableLookup(k, R, C, col, m) ==
+  LET pos == Match(k, KeyLine(R), m)
+  IN IF pos.k = "e" /\ col > C THEN [k |-> "errs"]
+     ELSE IF pos.k = "e" THEN [k |-> "na"]
+     ELSE IF col > C THEN [k |-> "ref"]
+     ELSE [k |-> "elem", i |-> pos.n, j |-> col]
+
 Apply ==
   /\ res = Pending
   /\ res' = IF kind = "match" THEN MatchScan(key, vec, mode)
+            ELSE IF kind = "table" THEN TableLookup(key, vec[1], vec[2], vec[3], mode)
             ELSE IF kind = "index" THEN Index(vec[1], vec[2], vec[3], vec[4])
             ELSE IntV(CountIf(vec, OpOf(mode), key))
   /\ UNCHANGED <<kind, key, vec, mode>>
@@ -150,6 +166,11 @@ Spec == Init /\ [][Next]_vars
 Done == res # Pending
 
 ScanRefinesMatch == (Done /\ kind = "match") => res = Match(key, vec, mode)
+\* a table look-up lands on the row whose key is the largest one not above the key
+TableRow == (Done /\ kind = "table" /\ res.k = "elem") =>
+   /\ 2 * res.i <= key.n
+   /\ (mode = 0 => 2 * res.i = key.n)
+   /\ (mode = 1 => (res.i = vec[1] \/ 2 * (res.i + 1) > key.n))
 \* a count of one criterion and of its negation make up the elements of the type
 CriteriaPartition ==
   (Done /\ kind = "countif" /\ mode = 3 /\ ~(key.k = "t" /\ HasWild(key.s))) =>
